@@ -30,11 +30,22 @@ class ShapeError(Exception):
     pass
 
 
+ACTIVE_POOL = None   # None = opaque order-only tokens; else a tuple of version texts (fallback domain)
+# pools of concrete versions for the fallback domain; the first K (sorted) are used.  Each pool packs the coincidences a
+# shape-dependent comparison could key on: same release with dev/pre/final/post, trailing zeros, digit growth, epochs.
+FALLBACK_POOLS = [("2.0.dev1", "2.0a1", "2.0", "2.0.post1", "2.1"), ("1.0", "1.0.0.1", "1.0.1", "1.1", "2"), ("1.9", "1.10", "1!0.5", "1!0.5.1", "2!0"),
+                  ("1.5.dev0", "1.5", "1.5.post0", "1.6rc1", "1.6")]
+
+
 class SpecDomain:
-    def __init__(self, src, K):
+    def __init__(self, src, K, pool=None):
         self.K = K
         self.it = it = Interp(src)
         it.max_steps = None
+        self.pool = pool
+        if pool is not None:
+            from . import pkgmodel
+            pkgmodel.install(it)
         try:
             sp = it.module("dep_logic.specifiers.special")
             rg = it.module("dep_logic.specifiers.range")
@@ -47,7 +58,16 @@ class SpecDomain:
         self.Empty, self.Any = sp.ns["EmptySpecifier"], sp.ns["AnySpecifier"]
         self.Range, self.Union = rg.ns["RangeSpecifier"], un.ns["UnionSpecifier"]
         self.classes = (self.Empty, self.Any, self.Range, self.Union)
-        self.V = [VTok(i) for i in range(K)]
+        if pool is None:
+            self.V = [VTok(i) for i in range(K)]
+        else:
+            from . import pkgmodel
+            vs = sorted((pkgmodel.Version(t) for t in pool), key=lambda v: v.rank)
+            if len(vs) < K:
+                raise AnalysisError(f"fallback pool too small for K={K}")
+            self.V = vs[:K]
+        self._ix = {id(v): i for i, v in enumerate(self.V)}
+        self._ixr = {repr(v.rank): i for i, v in enumerate(self.V)}
         self.NPTS = 2 * K + 1
         self.vecs = list(itertools.product((False, True), repeat=self.NPTS))
         self.objs = {v: self.build_from_vec(v) for v in self.vecs}
@@ -57,6 +77,15 @@ class SpecDomain:
         # operand list: (label, vec, obj)
         self.operands = [(self.show(self.objs[v]), v, self.objs[v]) for v in self.vecs]
         self.operands.append(("AnySpecifier()", self.full, self.anyspec))
+
+    def ix(self, tok):
+        """position of a bound token in the domain's total order"""
+        i = self._ix.get(id(tok))
+        if i is None:
+            i = self._ixr.get(repr(tok.rank))
+        if i is None:
+            raise ShapeError(f"bound {tok!r} is not one of the domain's versions")
+        return i
 
     # ---------------------------------------------------------------- oracle side
     def pts_of_range(self, lo, hi, il, ih):
@@ -87,7 +116,7 @@ class SpecDomain:
             il, ih = s.f.get("include_min"), s.f.get("include_max")
             if not isinstance(il, bool) or not isinstance(ih, bool):
                 raise ShapeError(f"range inclusivity flags are not booleans: {il!r}, {ih!r}")
-            return self.pts_of_range(None if lo is None else lo.rank, None if hi is None else hi.rank, il, ih)
+            return self.pts_of_range(None if lo is None else self.ix(lo), None if hi is None else self.ix(hi), il, ih)
         if s.cls is self.Union:
             rs = s.f.get("ranges")
             if not isinstance(rs, (tuple, list)) or not rs:
@@ -105,9 +134,9 @@ class SpecDomain:
         if s.cls is self.Range:
             lo, hi = s.f["min"], s.f["max"]
             if lo is not None and hi is not None:
-                if lo.rank > hi.rank:
+                if self.ix(lo) > self.ix(hi):
                     return "range with min > max"
-                if lo.rank == hi.rank and not (s.f["include_min"] and s.f["include_max"]):
+                if self.ix(lo) == self.ix(hi) and not (s.f["include_min"] and s.f["include_max"]):
                     return "degenerate (empty) point range"
             return None
         if s.cls is self.Union:
@@ -127,7 +156,7 @@ class SpecDomain:
             for a, b in zip(rs, rs[1:]):
                 if a.f["max"] is None or b.f["min"] is None:
                     return "unbounded range not at the end of a union"
-                am, bm = a.f["max"].rank, b.f["min"].rank
+                am, bm = self.ix(a.f["max"]), self.ix(b.f["min"])
                 if not (am < bm or (am == bm and not a.f["include_max"] and not b.f["include_min"])):
                     return "union members overlapping, touching or out of order"
             return None
@@ -176,8 +205,8 @@ class SpecDomain:
             return "AnySpecifier()"
         if s.cls is self.Range:
             lo, hi = s.f.get("min"), s.f.get("max")
-            l = "(-inf" if lo is None else ("[" if s.f.get("include_min") else "(") + repr(lo)
-            h = "+inf)" if hi is None else repr(hi) + ("]" if s.f.get("include_max") else ")")
+            l = "(-inf" if lo is None else ("[" if s.f.get("include_min") else "(") + self._tok(lo)
+            h = "+inf)" if hi is None else self._tok(hi) + ("]" if s.f.get("include_max") else ")")
             return f"{l},{h}"
         if s.cls is self.Union:
             rs = s.f.get("ranges")
@@ -186,6 +215,9 @@ class SpecDomain:
             except TypeError:
                 return f"U{{{rs!r}}}"
         return repr(s)
+
+    def _tok(self, v):
+        return v.vstr() if hasattr(v, "vstr") else repr(v)
 
     def apply(self, opname, a, b=None):
         """-> ("ok", obj, path) | ("raise", exc, path)"""
@@ -231,10 +263,38 @@ _DOM = {}
 
 
 def get_domain(src, K):
-    key = (str(src), K, os.getpid())
+    key = (str(src), K, os.getpid(), ACTIVE_POOL)
     if key not in _DOM:
-        _DOM[key] = SpecDomain(src, K)
+        _DOM[key] = SpecDomain(src, K, ACTIVE_POOL)
     return _DOM[key]
+
+
+def with_fallback(chk, body):
+    """Run `body(chk)` on opaque order-only tokens; if the slice turns out not to be order-parametric any more (the
+    interpreter aborts on a non-comparison use of a version token), re-run it on concrete PEP 440 versions of mixed
+    shapes (pkgmodel) so that the check still gives a verdict instead of an analysis error."""
+    global ACTIVE_POOL
+    ACTIVE_POOL = None
+    try:
+        body(chk)
+        return
+    except AnalysisError as e:
+        if "version token" not in str(e):
+            raise
+        why = str(e)
+    note = (f"order-only lemma does NOT hold on this tree ({why}); the slice was re-analysed on concrete PEP 440 versions of mixed shapes "
+            f"{FALLBACK_POOLS} (complete only for those pools)")
+    try:
+        for pool in FALLBACK_POOLS:
+            chk.reset()
+            ACTIVE_POOL = tuple(pool)
+            body(chk)
+            if chk.violations:
+                break
+    finally:
+        ACTIVE_POOL = None
+    chk.notes.append(note)
+    chk.assumptions.append("fallback domain: concrete version pools instead of opaque tokens; completeness over order types is lost")
 
 
 def parallel(fn, tasks, jobs):
